@@ -15,6 +15,10 @@
 package main
 
 import (
+	"errors"
+	"io"
+	"bytes"
+	"io/ioutil"
 	"bufio"
 	"context"
 	"fmt"
@@ -65,6 +69,7 @@ type tcase struct {
 	wrap   bool
 	hidden bool
 	tree   string
+	inj    string // fault injected into the front end: ce<k> cancel before the k-th entry is asked for, cb<k> cancel at the k-th block, tr<pm> multipart body cut at pm/1000
 }
 
 func b01(b bool) string {
@@ -101,9 +106,13 @@ func (c tcase) input() string {
 	if ch == "" {
 		ch = "def"
 	}
-	return fmt.Sprintf("C13 mode=%s local=%s route=%s src=%s fmt=%s opts=%s allocs=%s afail=%s pfail=%s faults=%s chunker=%s layout=%s raw=%s cidv=%d hash=%s wrap=%s hidden=%s tree=%s",
+	injTok := ""
+	if c.inj != "" {
+		injTok = " inj=" + c.inj
+	}
+	return fmt.Sprintf("C13 mode=%s local=%s route=%s src=%s fmt=%s opts=%s allocs=%s afail=%s pfail=%s faults=%s chunker=%s layout=%s raw=%s cidv=%d hash=%s wrap=%s hidden=%s tree=%s%s",
 		c.mode, b01(c.local), c.route, c.src, c.format, c.opts, allocsTok(c.allocs), common.Ints(c.afail), common.Ints(c.pfail),
-		faultsTok(c.faults), ch, c.layout, b01(c.ip.raw), c.ip.cidv, c.ip.hash, b01(c.wrap), b01(c.hidden), c.tree)
+		faultsTok(c.faults), ch, c.layout, b01(c.ip.raw), c.ip.cidv, c.ip.hash, b01(c.wrap), b01(c.hidden), c.tree, injTok)
 }
 
 func parseIntList(s string) ([]int, bool) {
@@ -190,6 +199,15 @@ func parseCase(line string) (tcase, bool) {
 	c.ip.hash = kv["hash"]
 	c.wrap, c.hidden = kv["wrap"] == "1", kv["hidden"] == "1"
 	c.tree = kv["tree"]
+	c.inj = kv["inj"]
+	if c.inj == "-" {
+		c.inj = ""
+	}
+	if c.inj != "" {
+		if k, _, ok := injOf(c.inj); !ok || c.route != "direct" || c.src == "syn" || (k == "ce" && c.src != "mem") {
+			return c, false
+		}
+	}
 	if c.src == "syn" {
 		blks, ok := synBlocks(c.tree)
 		if !ok || !strings.HasPrefix(c.tree, "syn:") {
@@ -221,6 +239,66 @@ type recDAG struct {
 	failed []int
 	fin    cid.Cid
 	finned bool
+	// injected cancellation: the request's context is cancelled when the cancelAt-th block arrives (before it is passed on)
+	cancelAt int
+	cancel   context.CancelFunc
+}
+
+// multipartBroken reads a request body with mime/multipart alone: true when reading the parts and their bodies ends with
+// an error other than io.EOF. (A body cut inside a part's header block reads as a clean end of parts: mime/multipart answers
+// io.EOF there, and nothing downstream can tell that upload from a complete one.)
+func multipartBroken(body []byte, boundary string) bool {
+	r := multipart.NewReader(bytes.NewReader(body), boundary)
+	for {
+		p, err := r.NextPart()
+		if err == io.EOF {
+			return false
+		}
+		if err != nil {
+			return true
+		}
+		if _, err := ioutil.ReadAll(p); err != nil {
+			return true
+		}
+	}
+}
+
+// injOf splits an injection token: kind "ce" / "cb" / "tr" and its number.
+func injOf(s string) (kind string, n int, ok bool) {
+	if len(s) < 3 {
+		return "", 0, false
+	}
+	kind = s[:2]
+	n, err := strconv.Atoi(s[2:])
+	if err != nil || n < 0 || (kind != "ce" && kind != "cb" && kind != "tr") || (kind == "tr" && n > 1000) {
+		return "", 0, false
+	}
+	return kind, n, true
+}
+
+// cancelDir cancels the request's context when the at-th entry of the directory is asked for.
+type cancelDir struct {
+	files.Directory
+	at     int
+	cancel context.CancelFunc
+}
+
+func (d *cancelDir) Entries() files.DirIterator {
+	return &cancelIt{DirIterator: d.Directory.Entries(), d: d}
+}
+
+type cancelIt struct {
+	files.DirIterator
+	d *cancelDir
+	i int
+}
+
+func (it *cancelIt) Next() bool {
+	if it.i == it.d.at {
+		it.d.cancel()
+	}
+	it.i++
+	return it.DirIterator.Next()
 }
 
 func (r *recDAG) Add(ctx context.Context, n ipld.Node) error {
@@ -234,6 +312,9 @@ func (r *recDAG) Add(ctx context.Context, n ipld.Node) error {
 		}
 	}
 	r.stream = append(r.stream, blkrec{n.Cid(), len(n.RawData()), isDir})
+	if r.cancel != nil && len(r.stream)-1 == r.cancelAt {
+		r.cancel()
+	}
 	defer func() {
 		if p := recover(); p != nil {
 			r.failed = append(r.failed, len(r.stream)-1)
@@ -273,6 +354,7 @@ func (r *recDAG) Finalize(ctx context.Context, root cid.Cid) (cid.Cid, error) {
 // ---- one add ----
 
 type addResult struct {
+	broken bool   // inj=tr: the standard library's multipart reader reports the cut body as broken (not as a clean end of parts)
 	res    string // ok | err | panic
 	root   cid.Cid
 	rec    *recDAG
@@ -378,11 +460,40 @@ func runAdd(ctx context.Context, c tcase, route string, top *tnode, carData []by
 		}
 	}()
 	var root cid.Cid
-	useMultipart := c.src != "mem" || route != "direct"
+	injKind, injN, _ := injOf(c.inj)
+	var cancelReq context.CancelFunc
+	if injKind == "ce" || injKind == "cb" {
+		ctx, cancelReq = context.WithCancel(ctx)
+		defer cancelReq()
+	}
+	useMultipart := c.src != "mem" || route != "direct" || injKind == "tr"
+	if injKind == "ce" {
+		useMultipart = false
+		dir = &cancelDir{Directory: dir, at: injN, cancel: cancelReq}
+	}
 	var mpr *multipart.Reader
 	if useMultipart {
 		mfr := files.NewMultiFileReader(dir, true)
-		mpr = multipart.NewReader(mfr, mfr.Boundary())
+		if injKind == "tr" {
+			// a broken upload: the request body ends early (at least the closing boundary is damaged)
+			body, rerr := ioutil.ReadAll(mfr)
+			if rerr != nil {
+				st.infra = "multipart: " + rerr.Error()
+				ar.res = "err"
+				return
+			}
+			cut := len(body) * injN / 1000
+			if cut > len(body)-8 {
+				cut = len(body) - 8
+			}
+			if cut < 0 {
+				cut = 0
+			}
+			mpr = multipart.NewReader(bytes.NewReader(body[:cut]), mfr.Boundary())
+			ar.broken = multipartBroken(body[:cut], mfr.Boundary())
+		} else {
+			mpr = multipart.NewReader(mfr, mfr.Boundary())
+		}
 	}
 	switch route {
 	case "direct":
@@ -393,6 +504,9 @@ func runAdd(ctx context.Context, c tcase, route string, top *tnode, carData []by
 			inner = single.New(nw.client, params.PinOptions, params.Local)
 		}
 		ar.rec = &recDAG{inner: inner, st: st}
+		if injKind == "cb" {
+			ar.rec.cancelAt, ar.rec.cancel = injN, cancelReq
+		}
 		a := adder.New(ar.rec, params, nil)
 		if useMultipart {
 			root, err = a.FromMultipart(ctx, mpr)
@@ -410,6 +524,10 @@ func runAdd(ctx context.Context, c tcase, route string, top *tnode, carData []by
 		st.infra = "unknown route"
 		ar.res = "err"
 		return
+	}
+	if injKind == "cb" || injKind == "ce" {
+		// calls abandoned by the caller may still be on their way: let them land in this case's record
+		time.Sleep(200 * time.Millisecond)
 	}
 	if err != nil {
 		ar.res = "err"
@@ -968,8 +1086,12 @@ func run(ctx context.Context, c tcase) string {
 			rbOK = readback(ctx, del, main.root, what)
 			riOK = main.root.Equals(refRoot)
 		}
+		if k, _, _ := injOf(c.inj); k == "tr" && !main.broken {
+			// the cut upload reads as a complete, shorter one: the tree on the case line is not what was sent
+			refErr = errors.New("input is a prefix of the tree")
+		}
 		// the same add the other way round (sharded <-> not sharded), no faults
-		if c.format != "car" || true {
+		if k, _, _ := injOf(c.inj); k != "tr" {
 			alt := c
 			if c.mode == "shard" {
 				alt.mode = "single"
@@ -978,6 +1100,7 @@ func run(ctx context.Context, c tcase) string {
 				alt.opts = "1:1/0/r/1099511627776/z/-/-/-/-"
 			}
 			alt.local = false
+			alt.inj = ""
 			ar := runAdd(ctx, alt, "direct", top, carData, [][]int{{1}}, nil, nil, nil)
 			if ar.res == "ok" {
 				rpKnown = true
@@ -1020,10 +1143,10 @@ func run(ctx context.Context, c tcase) string {
 			tri3(tsucc && refErr == nil, tri), b01(importerFails))
 	}
 
-	return fmt.Sprintf("res=%s stream=%s failed=%s lost=%s fin=%s log=%s nodes=%s cl=%s rb=%s rp=%s ri=%s referr=%s req=%s dag=%s files=%s",
+	return fmt.Sprintf("res=%s stream=%s failed=%s lost=%s fin=%s log=%s nodes=%s cl=%s rb=%s rp=%s ri=%s referr=%s req=%s dag=%s files=%s nent=%d broken=%s",
 		resTok, streamTok, common.Ints(rec.failed), lostTok(ctx, rec, refDS), finTok, logTok, nodesTok,
 		tri(success, clOK), tri(success && refErr == nil, rbOK), tri(success && rpKnown, rpOK), tri(success && refErr == nil, riOK),
-		b01(importerFails), reqTok, dagTok, filesTok) + twinLine
+		b01(importerFails), reqTok, dagTok, filesTok, len(vis.names), b01(main.broken)) + twinLine
 }
 
 func tri3(known bool, v bool) string { return tri(known, v) }
